@@ -11,9 +11,11 @@ Three streams, all generated from R.rng:
   C. TensorDictParams registration after random update sequences (and vs the model).
 """
 import copy
+import gc
 import hashlib
 import json
 import os
+import weakref
 
 from . import cext
 from .core import Sym, sx, run_model as _run_model
@@ -40,6 +42,9 @@ def _imports():
     from tensordict._td import Buffer
 
     torch.set_num_threads(1)
+    # the objects created by the imports never die: keep them out of the collections requested at the injection points
+    gc.collect()
+    gc.freeze()
 
     def run_child(c, acc):
         if isinstance(c, nn.ModuleList):
@@ -317,6 +322,25 @@ def gen_pspec(rng, spec, target, mode, consistent=True, malformed=0.0):
     return ents
 
 
+def fresh_pspec(spec, target):
+    """what TensorDict.from_module(<a second copy of the target>) holds: every non-None parameter/buffer, then the
+    non-empty children, each path of a shared sub-module spelled out; the tids are the module's own (same content)"""
+    def walk(mid):
+        m = spec["mods"][mid]
+        if m["ty"] == "tdp":
+            def lv(l):
+                return [[n, (x if isinstance(x, int) else lv(x))] for n, x in l]
+            return lv(m["leaves"])
+        ents = [[n, t] for n, t in m["params"] if t is not None] + [[n, t] for n, t, _ in m["bufs"] if t is not None]
+        for n, c in m["subs"]:
+            if c is not None:
+                sub = walk(c)
+                if sub:
+                    ents.append([n, sub])
+        return ents
+    return walk(target)
+
+
 def gen_program(rng, spec, rich=True):
     order = reachable(spec)
     depth = rng.choice([1, 1, 1, 1, 1, 1, 2, 2, 2, 3])
@@ -332,10 +356,14 @@ def gen_program(rng, spec, rich=True):
         if usd:
             inplace = None
         as_ = rng.choice(["td", "td", "td", "locked", "tdp", "tdpc"])
-        blk = {"target": target, "mode": mode, "inplace": inplace, "usd": usd, "as": as_,
+        src = "held" if rng.random() < 0.55 else rng.choice(TEMP_SOURCES)
+        if src == "fresh":
+            mode = "self"  # the values are those of a structurally identical second module: same content, other objects
+        blk = {"target": target, "mode": mode, "inplace": inplace, "usd": usd, "as": as_, "src": src,
                "swap_dest": rich and rng.random() < 0.04, "manual": rng.random() < 0.08,
-               "p": gen_pspec(rng, spec, target, mode, consistent=rng.random() < 0.8,
-                              malformed=0.08 if rng.random() < 0.3 else 0.0)}
+               "p": (gen_pspec(rng, spec, target, mode, consistent=rng.random() < 0.8,
+                               malformed=0.08 if rng.random() < 0.3 else 0.0) if src != "fresh"
+                     else fresh_pspec(spec, target))}
         blocks.append(blk)
     return blocks
 
@@ -450,6 +478,31 @@ def build_params(env, blk):
     return td
 
 
+TEMP_SOURCES = ["data", "detach", "clone", "copy", "index", "fresh"]
+
+
+def temp_source(env, blk, base, case):
+    """the source tensordict as a temporary expression (`with params.data.to_module(m):` ...): nobody but the caller's
+    local variable refers to the result; 'fresh' is a from_module(...) of another, structurally identical module"""
+    T = _imports()
+    src = blk.get("src", "held")
+    if src == "data":
+        return base.data
+    if src == "detach":
+        return base.detach()
+    if src == "clone":
+        return base.clone()
+    if src == "copy":
+        return base.copy()
+    if src == "index":
+        return base.unsqueeze(0)[0]
+    if src == "fresh":
+        env2 = build(case)
+        env.keep.append(env2)  # the other module stays alive (its tensors are the supplied values); the tensordict does not
+        return T["TensorDict"].from_module(env2.mods[blk["target"]])
+    return base
+
+
 def kind_of(t):
     T = _imports()
     if isinstance(t, T["nn"].Parameter):
@@ -560,6 +613,9 @@ def execute(case, want_output=True):
             res["final"] = "build:" + exc_class(e)
             return res
     res["params"] = params
+    env.keep = []
+    env.live = [True] * n
+    temp = [blk.get("src", "held") != "held" for blk in blocks]
     # register the leaves of the params actually built (TensorDictParams re-wraps tensors): described to the model
     env.pleaves = []
     for bi, p in enumerate(params):
@@ -574,6 +630,8 @@ def execute(case, want_output=True):
 
     def body_innermost():
         pt = exc.get("point") if exc["kind"] != "none" and exc["level"] == n - 1 else None
+        if any(temp):
+            gc.collect(1)  # young generations: cheap, enough for cycles created since the block was entered
         if pt and pt[0] == "before":
             raise make_exc()
         handles = []
@@ -610,8 +668,30 @@ def execute(case, want_output=True):
         target = env.mods[blk["target"]]
         B["before"] = named_maps(env)
         try:
-            cm = params[i].to_module(target, **kw)
+            if temp[i]:
+                # `with <temporary>.to_module(target):` -- the source is described (its leaves stay alive in env, the
+                # tensordict itself does not) and dropped as soon as the call returns
+                try:
+                    src_td = temp_source(env, blk, params[i], case)
+                except Exception:  # noqa: BLE001 -- the expression itself is not available for this kind of tensordict
+                    src_td = None
+                if src_td is None or src_td is params[i]:
+                    temp[i] = False
+                    cm = params[i].to_module(target, **kw)
+                else:
+                    env.pleaves[i] = describe_td(env, src_td)
+                    wr = weakref.ref(src_td)
+                    cm = src_td.to_module(target, **kw)
+                    src_td = None
+                    if wr() is not None:
+                        gc.collect()  # a reference cycle, or a genuinely retained object (a locked tensordict caches
+                        #               its detach()): what counts is whether it is alive when the block is left
+                    env.live[i] = wr() is not None
+                src_td = None
+            else:
+                cm = params[i].to_module(target, **kw)
         except BaseException as e:  # noqa: BLE001 -- entering failed: the block is never entered
+            src_td = None
             B["enter"] = exc_class(e)
             res["trace"].append(["enter", i, exc_class(e), raw_snapshot(env)])
             raise EnterFailed() from e
@@ -649,6 +729,8 @@ def execute(case, want_output=True):
                     else:
                         body_innermost()
                     if exc["kind"] != "none" and exc["level"] == i and exc["point"][0] == "after-inner":
+                        if any(temp):
+                            gc.collect(1)
                         raise make_exc()
                 except BaseException as e:
                     body_exc = e
@@ -676,7 +758,7 @@ def execute(case, want_output=True):
     # a TensorDictParams used as `params` must still expose exactly its leaves after the blocks (exit writes into it)
     res["tdp_registration"] = []
     for bi, p_ in enumerate(params):
-        if isinstance(p_, T["TensorDictParams"]) and res["blocks"][bi].get("enter") == "ok":
+        if isinstance(p_, T["TensorDictParams"]) and res["blocks"][bi].get("enter") == "ok" and not temp[bi]:
             reg = {nm: t for nm, t in p_.named_parameters(remove_duplicate=False)}
             reg.update({nm: t for nm, t in p_.named_buffers(remove_duplicate=False)})
             leaves = dict(flat_td(p_))
@@ -1031,7 +1113,7 @@ def model_line(case, res):
     for i, blk in enumerate(case["blocks"]):
         inp = Sym("none") if blk["inplace"] is None else [Sym("some"), Sym("t") if blk["inplace"] else Sym("f")]
         blocks.append([blk["target"], inp, Sym("t") if blk["usd"] else Sym("f"), Sym("t") if blk["swap_dest"] else Sym("f"),
-                       Sym("t") if blk["manual"] else Sym("f"), Sym("t") if blk["as"] in ("tdp", "tdpc") else Sym("f"),
+                       Sym("t") if blk["manual"] else Sym("f"), Sym("t") if res["env"].live[i] else Sym("f"),  # is the source still referenced at exit time
                        ents_sx(res["env"].pleaves[i])])
     exc = case["exc"]
     if exc["kind"] == "none":
@@ -1153,6 +1235,7 @@ def run_programs(R, have_model):
             R.count("prog:final=" + impl_outcome_enum(res["final"].split(":")[-1]) if not res["final"].startswith("enter") else "prog:final=enter-raised")
             for b in blocks:
                 R.count("blk:mode=" + b["mode"])
+                R.count("blk:source=" + b.get("src", "held"))
                 if b["inplace"]:
                     R.count("blk:inplace")
                 if b["usd"]:
